@@ -38,6 +38,10 @@ FT = [
     # a type whose `==` is not reflexive (only where no Eq / Ord / Hash is derived): `x == x` must be computed
     ('f64', sx.tid('f64'), 'f64', ['0.5f64', 'f64::NAN'], ()),
     ('pn', sx.tid('Pn'), 'Pn', ['Pn(0)', 'Pn(255)'], ()),
+    # the parameter reached only through the generic arguments of an ABSOLUTE path / of a tuple / of a reference
+    ('lopt', sx.tpath(['core', 'option', sx.seg('Option', ('angle', [sx.gty(T)]))], lead=True), '::core::option::Option<T>',
+     ['None', 'Some(6u16)'], ('T',)),
+    ('tup', sx.ttuple([sx.tid('u8'), T]), '(u8, T)', ['(0u8, 7u16)', '(1u8, 7u16)'], ('T',)),
 ]
 TRAITS = ['Clone', 'Debug', 'Default', 'PartialEq', 'Eq', 'PartialOrd', 'Ord', 'Hash']
 SUPER = {'Eq': ['PartialEq'], 'PartialOrd': ['PartialEq'], 'Ord': ['Eq', 'PartialOrd', 'PartialEq']}
@@ -138,7 +142,7 @@ class C12(Prop):
                 attrs_r.append('#[non_exhaustive]')
             elif r < 0.35:
                 attrs.append(sx.a_other('doc = "text"'))
-            names = ['a', 'r#type' if raw else 'b', 'c', 'r#fn' if raw else 'd', 'e']
+            names = ['a', 'r#type' if raw else 'b', '_c', 'r#fn' if raw else 'd', '_marker']
 
             def fields_s(kind, fl):
                 fs = [sx.field(sx.tid('U') if fi == 'TAIL' else FT[fi][1], name=names[i] if kind == 'named' else None)
